@@ -17,6 +17,12 @@ Tie:
          process-global state, i.e. where an impure block function (global RNG, module table) shows.
          The purity itself is a proof obligation (Props/C01.lean `all_block_functions_pure`, decided on
          the generated effect summaries); this stream is its observation and its failing-input search.
+     (e) several lazy results evaluated in ONE *graph* (dask.compute of all, xr.Dataset, a - b): calls that differ in exactly
+         one place, or in nothing; each result against its own NumPy call.  dask merges the graphs into one dictionary:
+         tasks of different calls that carry the same key replace each other, although every result computed alone is
+         right.  That no call site of the library names its own graph key is a proof obligation (Props/C01.lean
+         `no_call_site_names_its_graph_key`, decided on Gen/GraphKeys.lean + the key fields of Gen/Overlap, Gen/Blocks);
+         this stream observes dask's side of the contract and is the failing-input search (harness/jointgraph.py).
 """
 import itertools
 import math
@@ -88,17 +94,53 @@ def mk(a, chunks=None, res=None, coords=True):
     return xr.DataArray(d, dims=["y", "x"], attrs=attrs, **kw)
 
 
-def gen_kernel(rng, h, w, weighted=False):
+KERNEL_CLASSES = ["mask01", "mask01", "frac", "int>1", "negative", "nan", "mixed"]
+KERNEL_DTYPES = ["float64", "float64", "float32", "int64", "int32", "bool"]
+KERNEL_DTYPES_QUICK = ["float64", "float64", "float64", "int64", "bool"]    # every (kernel dtype, statistic) pair is a numba compilation
+_TIER = {"quick": False}
+
+
+def gen_kernel(rng, h, w, weighted=False, cls=None, dtype=None):
+    """a kernel array of odd shape.  Entry classes (what the cells hold beside 0 and 1): `mask01` nothing, `frac`
+    weights in (0, 1), `int>1` integers above 1, `negative`, `nan`, `mixed` all of them; dtypes float64 / float32 /
+    int64 / int32 / bool (a class the dtype cannot hold degrades: bool -> mask01, int -> no fractions / NaN).
+    focal.apply / focal_stats *select* the cells whose entry equals 1, hotspots / convolution_2d *weigh* with the
+    entries: both readings must come out the same on the two backends, whatever the entries are."""
     kr = rng.choice([r for r in (1, 3, 5, 7) if r <= max(1, h + 2)])
     kc = rng.choice([c for c in (1, 3, 5, 7) if c <= max(1, w + 2)])
-    if weighted:
-        k = np.array([rng.choice([0, 1, 2, 0.5, -1, 0.25]) for _ in range(kr * kc)], dtype=np.float64)
-    else:
-        k = np.array([rng.choice([0, 1, 1]) for _ in range(kr * kc)], dtype=np.float64)
-    k = k.reshape(kr, kc)
-    if k.sum() == 0:
+    if cls is None:
+        cls = rng.choice(KERNEL_CLASSES + ["mixed"] * 5) if weighted else rng.choice(KERNEL_CLASSES)
+    if dtype is None:
+        dtype = rng.choice(KERNEL_DTYPES_QUICK if _TIER["quick"] else KERNEL_DTYPES)
+    extra = {"mask01": [], "frac": [0.5, 0.25, 0.75], "int>1": [2, 3, 2], "negative": [-1, -1, -0.5],
+             "nan": [float("nan")], "mixed": [2, 0.5, -1, 0.25]}[cls]
+    if dtype == "bool":
+        extra = []
+    elif dtype.startswith("int"):
+        extra = [e for e in extra if e == e and float(e).is_integer()]
+    pool = [0, 1, 1] + extra + extra[:1]
+    k = np.array([rng.choice(pool) for _ in range(kr * kc)], dtype=np.float64).reshape(kr, kc)
+    if not (k == 1).any():
         k[kr // 2, kc // 2] = 1
-    return k
+    return k.astype(dtype)
+
+
+def kernel_tags(op, k):
+    f = k.astype(np.float64)
+    other = f[(f != 0) & (f != 1)]
+    tags = [f"kernel-dtype:{k.dtype.name}"]
+    if other.size == 0:
+        tags.append("kernel-entries:0/1")
+    else:
+        if np.isnan(other).any():
+            tags.append("kernel-entries:nan")
+        if ((other > 0) & (other < 1)).any():
+            tags.append("kernel-entries:frac")
+        if (other > 1).any():
+            tags.append("kernel-entries:>1")
+        if (other < 0).any():
+            tags.append("kernel-entries:negative")
+    return tags
 
 
 # ---------------------------------------------------------------- operations
@@ -199,7 +241,7 @@ def params_json(p):
     out = {}
     for k, v in p.items():
         if isinstance(v, np.ndarray):
-            out[k] = dict(shape=list(v.shape), data=[tok(x) for x in v.ravel().tolist()])
+            out[k] = dict(shape=list(v.shape), dtype=v.dtype.name, data=[tok(x) for x in v.astype(np.float64).ravel().tolist()])
         elif isinstance(v, (list, tuple)):
             out[k] = [tok(x) if isinstance(x, float) else x for x in v]
         else:
@@ -212,7 +254,7 @@ def params_from_json(j):
     out = {}
     for k, v in j.items():
         if isinstance(v, dict) and "shape" in v:
-            out[k] = np.array([untok(t) for t in v["data"]], dtype=np.float64).reshape(v["shape"])
+            out[k] = np.array([untok(t) for t in v["data"]], dtype=np.float64).reshape(v["shape"]).astype(v.get("dtype", "float64"))
         elif isinstance(v, list):
             vals = [untok(x) if isinstance(x, str) and k == "excludes" else x for x in v]
             out[k] = tuple(vals) if k in ("freq", "x_range", "y_range") else vals
@@ -445,7 +487,8 @@ def check_case(r, T, c):
     r.case(dict(key, stream="dask-vs-numpy"), desc=None,
            nontrivial=(len(c["rch"]) * len(c["cch"]) > 1),
            tags=[f"op:{c['op']}", f"sched:{c['sched'][0]}{c['sched'][1] or ''}", f"dtype:{c['dtype']}",
-                 f"status:{st_n}/{st_d}", f"blocks:{min(len(c['rch']) * len(c['cch']), 9)}"])
+                 f"status:{st_n}/{st_d}", f"blocks:{min(len(c['rch']) * len(c['cch']), 9)}"] +
+                (kernel_tags(c["op"], c["params"]["kernel"]) if "kernel" in c["params"] else []))
     if st_n != "ok" and st_d != "ok":
         return  # rejected by both backends: no result to compare
     if known_domain_exclusion(c, st_n, st_d):
@@ -566,20 +609,220 @@ def joint_stream(r, T, n_stateful, n_mixed, rounds):
         check_joint(r, T, g, scheds, rounds)
 
 
+# ---------------------------------------------------------------- several results in ONE graph (graph-key dimension)
+# operations whose Dask paths share a backend function (multispectral: one `_run_normalized_ratio_dask` behind four public
+# functions) or a call shape (same rasters, same parameter names): a second call may swap the function for a sibling
+SIBLINGS = [["ndvi", "ndmi", "nbr", "nbr2"], ["gci", "savi"], ["arvi", "sipi", "evi", "ebbi"],
+            ["slope", "aspect", "curvature"], ["apply", "hotspots", "convolution_2d", "focal_stats"],
+            ["perlin"], ["binary"], ["reclassify"], ["equal_interval"], ["mean"], ["hillshade"], ["generate_terrain"],
+            ["true_color"]]
+
+
+def same_value(a, b):
+    if isinstance(a, np.ndarray) or isinstance(b, np.ndarray):
+        a, b = np.asarray(a), np.asarray(b)
+        return a.shape == b.shape and a.dtype == b.dtype and np.array_equal(a, b, equal_nan=True)
+    return a == b or (a != a and b != b) or repr(a) == repr(b)
+
+
+def variant(rng, T, base, dim):
+    """a call that differs from `base` in exactly the place `dim` names (None when no different value was drawn)"""
+    c = dict(base, data=list(base["data"]), params=dict(base["params"]))
+    h, w = base["data"][0].shape
+    if dim == "identical":
+        return c
+    if dim.startswith("band:"):
+        i = int(dim[5:])
+        if base["op"] in ("perlin", "generate_terrain"):
+            return None                         # the raster only gives the shape
+        for _ in range(8):
+            a = gen_data(rng, h, w, np.dtype(base["dtype"]).type, rng.choice(["ints", "dyadic", "float"]))
+            if not same_value(a, base["data"][i]):
+                c["data"][i] = a
+                return c
+        return None
+    if dim.startswith("param:"):
+        k = dim[6:]
+        for _ in range(12):
+            v = gen_params(rng, base["op"], h, w).get(k)
+            if not same_value(v, base["params"][k]):
+                c["params"][k] = v
+                return c
+        return None
+    if dim == "chunks":
+        for _ in range(8):
+            rch, cch = random_composition(rng, h), random_composition(rng, w)
+            if (rch, cch) != (tuple(base["rch"]), tuple(base["cch"])):
+                c["rch"], c["cch"] = rch, cch
+                return c
+        return None
+    raise ValueError(dim)
+
+
+def sibling_call(rng, T, c):
+    """the same rasters and (as far as the names go) the same parameters handed to a sibling function"""
+    sibs = [o for g in SIBLINGS if c["op"] in g for o in g if o != c["op"] and o in T]
+    if not sibs:
+        return c
+    op = rng.choice(sibs)
+    h, w = c["data"][0].shape
+    fresh = gen_params(rng, op, h, w)
+    params = {k: (c["params"][k] if k in c["params"] else v) for k, v in fresh.items()}
+    nb = T[op].get("nb", 1)
+    if nb > len(c["data"]):
+        return c
+    return dict(c, op=op, params=params, data=list(c["data"][:nb]))
+
+
+def gen_jointgraph(rng, T, op, modes, max_variants=4):
+    """calls of `op` (some swapped for a sibling function) on Dask-backed rasters: the first as generated, every other one
+    differing from it in exactly one place.  The places are enumerated, not sampled: every band / the raster, then (as far as
+    `max_variants` allows) parameters drawn without repetition, the chunking, and one call identical to the first"""
+    base = gen_case(rng, T, op)
+    base["sched"] = ("synchronous", None)
+    bands = [f"band:{i}" for i in range(len(base["data"]))]
+    rest = [f"param:{k}" for k in base["params"]] + ["chunks", "identical"]
+    rng.shuffle(rest)
+    if op == "generate_terrain":               # 16 permutation tables (128 MB) per lazy result
+        max_variants = 2
+    dims = (bands + rest)[:max_variants]
+    calls, used = [base], []
+    for d in dims:
+        v = variant(rng, T, base, d)
+        if v is None:
+            continue
+        if rng.random() < 0.35:
+            v2 = sibling_call(rng, T, v)
+            if v2 is not v:
+                d, v = d + "+sibling", v2
+        calls.append(v)
+        used.append(d)
+    return dict(calls=calls, dims=used, modes=modes, sched=rng.choice([("synchronous", None), ("threads", 4)]))
+
+
+def jointgraph_json(calls, dims, mode, eff, sched):
+    return dict(stream="joint-graph", calls=[case_json(c) for c in calls], dims=dims, mode=mode, effective_mode=eff,
+                sched=list(sched),
+                note="the lazy results of these public calls on Dask-backed rasters are evaluated in ONE graph -- mode "
+                     "`compute`: dask.compute(a.data, b.data, ...); `dataset`: xr.Dataset({v0: a, v1: b, ...}).compute(); `minus`: "
+                     "(a - b).data.compute() -- and each must equal the NumPy result of the same call (for `minus`: the "
+                     "difference of the two NumPy results).  Each result computed on its own may well be right: tasks of "
+                     "different calls that carry the same graph key replace each other only once the graphs are merged.")
+
+
+def jointgraph_eval(T, calls, expected, mode, sched):
+    """-> (effective mode, list of (index of the call, description))"""
+    import jointgraph
+    lazies = [call_op(T, c, "dask") for c in calls]
+    eff = jointgraph.effective_mode(lazies, mode)
+    kind, got = jointgraph.evaluate(lazies, eff, sched)
+    bad = []
+    if kind == "each":
+        for i, (c, e, g) in enumerate(zip(calls, expected, got)):
+            d = compare(c, e, g)
+            if d:
+                bad.append((i, d))
+    else:
+        for i, g in enumerate(got, start=1):
+            d = jointgraph.minus_bad(expected[0], expected[i], g)
+            if d:
+                bad.append((i, f"call #0 minus call #{i}: " + d))
+    return eff, bad
+
+
+def usable_calls(T, calls):
+    out, expected = [], []
+    for c in calls:
+        st_n, out_n, _ = run_op(T, c, "numpy")
+        if st_n != "ok":
+            continue                           # rejected input: the single-call stream judges those
+        try:
+            lazy = call_op(T, c, "dask")
+        except Exception:  # noqa: BLE001 -- likewise
+            continue
+        if not isinstance(lazy.data, da.Array):
+            continue
+        out.append(c)
+        expected.append(out_n)
+    return out, expected
+
+
+def check_jointgraph(r, T, g):
+    import jointgraph
+    calls, expected, dims = [], [], []
+    for i, c in enumerate(g["calls"]):
+        cs, es = usable_calls(T, [c])
+        if not cs:
+            if i == 0:
+                r.tag("joint-graph:skipped(the first call is rejected)")
+                return
+            continue                            # a variant that one backend rejects: the single-call stream judges it
+        calls.append(c)
+        expected.append(es[0])
+        if i > 0:
+            dims.append(g["dims"][i - 1] if i - 1 < len(g["dims"]) else "?")
+    if len(calls) < 2:
+        r.tag("joint-graph:skipped(fewer than two usable calls)")
+        return
+    for mode in g["modes"]:
+        try:
+            eff, bad = jointgraph_eval(T, calls, expected, mode, g["sched"])
+        except (MemoryError, OSError) as ex:
+            raise Infra(f"joint graph: {type(ex).__name__}: {ex}")
+        except Exception as ex:  # noqa: BLE001
+            eff, bad = mode, [(0, f"joint evaluation raised {type(ex).__name__}: {str(ex)[:200]}")]
+        key = jointgraph_json(calls, dims, mode, eff, g["sched"])
+        r.case(key, nontrivial=jointgraph.distinct(expected),
+               tags=["stream:joint-graph", f"jg-mode:{eff}", f"jg-size:{min(len(calls), 6)}", f"jg-op:{calls[0]['op']}"] +
+                    sorted({f"jg-differs-in:{d.split(':')[0].split('+')[0]}" for d in dims}) +
+                    (["jg-sibling-function"] if any("+sibling" in d for d in dims) else []) +
+                    (["jg-results-distinct"] if jointgraph.distinct(expected) else ["jg-results-equal"]))
+        if bad:
+            i, d = bad[0]
+            r.fail(f"{calls[min(i, len(calls) - 1)]['op']}:differs-joint-graph",
+                   f"{len(bad)} result(s) of {len(calls)} calls ({', '.join(c['op'] for c in calls)}; each differing from the "
+                   f"first in {dims}) evaluated in one graph [{eff}] differ from NumPy; first: call #{i} {d}", key)
+            return
+
+
+def jointgraph_stream(r, T, per_op, n_modes):
+    import jointgraph
+    k = r.rng.randrange(3)
+    for op in T:
+        for _ in range(per_op):
+            modes = [jointgraph.MODES[(k + i) % 3] for i in range(n_modes)]
+            k += 1
+            check_jointgraph(r, T, gen_jointgraph(r.rng, T, op, modes))
+
+
+def replay_jointgraph(r, T, j):
+    calls = [case_from_json(c) for c in j["calls"]]
+    check_jointgraph(r, T, dict(calls=calls, dims=j.get("dims", []), modes=[j["mode"]], sched=tuple(j["sched"])))
+
+
 def run(r, scale=1):
     T = ops_table()
     drv = Driver()
     quick = r.tier == "quick"
+    _TIER["quick"] = quick
     r.rule = ("streams: halo-delivery (dask blocks vs model haloBlock), model-overlap (model mapOverlap of generated "
               "kernels vs real dask), dask-vs-numpy for 26 operations on rasters 1..7 x 1..7, dtypes int8..float64, "
               "NaN/inf cells, res attrs, random chunk compositions (thorough: all compositions for small shapes), "
               "schedulers synchronous/threads x {1,2,4,16}; joint-compute: groups of 3-6 calls (all from the operations whose "
               "generated effect summary writes global state, distinct seeds; or mixed over all operations) whose lazy results are "
               "computed by one dask.compute under threads x {2,4,8} (synchronous as control), 2-3 rounds, each compared with its "
-              "NumPy result; non-trivial = more than one block / a joint group")
+              "NumPy result; joint-graph: per operation a group of calls on Dask-backed rasters -- the first as generated, each other "
+              "one differing from it in exactly one place, enumerated: every band / the raster, then parameters, the chunking, "
+              "nothing (up to 4 variants; the function swapped for a sibling with the same call shape 35%) -- whose lazy results are "
+              "evaluated in ONE graph in two (thorough three) of the ways dask.compute(all) / xr.Dataset / a - b, each judged against "
+              "its own NumPy call; kernels of apply / focal_stats / hotspots / convolution_2d by entry class (0/1, weights in (0,1), "
+              "integers > 1, negative, NaN, mixed) and dtype (float64, int64, bool; thorough also float32, int32); "
+              "non-trivial = more than one block / a joint group / distinct expected results")
     for body in r.corpus():
         if body["case"].get("stream") == "joint":
             replay_joint(r, T, body["case"], repeat=2)
+        elif body["case"].get("stream") == "joint-graph":
+            replay_jointgraph(r, T, body["case"])
         else:
             check_case(r, T, case_from_json(body["case"]))
     halo_delivery(r, drv, (40 if quick else 300) * scale)
@@ -590,8 +833,11 @@ def run(r, scale=1):
             check_case(r, T, gen_case(r.rng, T, op))
     import time
     t0 = time.time()
-    joint_stream(r, T, n_stateful=(4 if quick else 20) * scale, n_mixed=(6 if quick else 40) * scale, rounds=2 if quick else 3)
+    joint_stream(r, T, n_stateful=(4 if quick else 20) * scale, n_mixed=(4 if quick else 40) * scale, rounds=2 if quick else 3)
     r.extra["joint_stream_seconds"] = round(time.time() - t0, 1)
+    t0 = time.time()
+    jointgraph_stream(r, T, per_op=(1 if quick else 8) * scale, n_modes=2 if quick else 3)
+    r.extra["jointgraph_stream_seconds"] = round(time.time() - t0, 1)
     if not quick:
         # every chunk composition of every shape up to 4x4 for the stencil / kernel operations
         r.exhaustive = True
@@ -647,8 +893,10 @@ def replay(r, body):
             return 1
         print(f"did not fail in {body['case'].get('repeat', JOINT_REPEAT)} repetitions on the current tree")
         return 0
-    c = case_from_json(body["case"])
-    check_case(r, T, c)
+    if body["case"].get("stream") == "joint-graph":
+        replay_jointgraph(r, T, body["case"])
+    else:
+        check_case(r, T, case_from_json(body["case"]))
     if len(r.failures) > before:
         print("still fails:", r.failures[-1]["what"])
         return 1
